@@ -13,7 +13,11 @@ from boolean.boolean import Expression, ParseError
 from license_expression import ExpressionError
 
 from .. import _LICENSING
-from ..exceptions import GlobalLicensingConflictError, GlobalLicensingParseError
+from ..exceptions import (
+    GlobalLicensingConflictError,
+    GlobalLicensingParseError,
+    LicenseConflictError,
+)
 from ..i18n import _
 from ..project import Project
 from ..vcs import find_root
@@ -60,7 +64,11 @@ class ClickObj:
                 ).format(path=error.source, message=str(error))
             ) from error
 
-        except (GlobalLicensingConflictError, OSError) as error:
+        except (
+            GlobalLicensingConflictError,
+            LicenseConflictError,
+            OSError,
+        ) as error:
             raise click.UsageError(str(error)) from error
 
         self._project = project
